@@ -121,20 +121,12 @@ structure Roots where
   resources : Nat
   deriving Repr, Inhabited
 
-structure State where
+/-- the data half of the interpreter: everything the non-reentrant operators can touch -/
+structure VM where
   stack : List Obj := []            -- top first
   dictStack : List Nat := []        -- top first
-  heap : Array Cell := #[]
-  numOps : Nat := 0
-  maxOps : Nat := 0
-  checkStart : Bool := false
-  execDepth : Nat := 0
-  errors : List ErrName := []       -- pending errors, innermost first
-  procStart : List Nat := []        -- innermost first
-  scanner : Scanner := {}           -- the scanner of the running Execute call (one object, shared by eexec)
-  scannerDepth : Nat := 0           -- len(intp.scanners)
   dictGhost : List Nat := []        -- stale entries of the DictStack backing array above its length, nearest first
-  dsc : List (String × String) := []
+  heap : Array Cell := #[]
   cmapMappings : Option Nat := none        -- ref of the CMapInfo under construction
   cmapCodeSpaceRanges : Nat := 0           -- lengths of the scratch slices
   cmapChars : Nat := 0
@@ -142,35 +134,49 @@ structure State where
   roots : Roots
   deriving Repr, Inhabited
 
-namespace State
+/-- the whole interpreter: data plus the control fields only `executeOne`, `Execute`,
+`eexec` and `readstring` touch -/
+structure State where
+  vm : VM
+  numOps : Nat := 0
+  checkStart : Bool := false
+  execDepth : Nat := 0
+  errors : List ErrName := []       -- pending errors, innermost first
+  procStart : List Nat := []        -- innermost first
+  scanner : Scanner := {}           -- the scanner of the running Execute call (one object, shared by eexec)
+  scannerDepth : Nat := 0           -- len(intp.scanners)
+  dsc : List (String × String) := []
+  deriving Repr, Inhabited
 
-def alloc (s : State) (c : Cell) : State × Nat :=
+namespace VM
+
+def alloc (s : VM) (c : Cell) : VM × Nat :=
   ({ s with heap := s.heap.push c }, s.heap.size)
 
-def getDict (s : State) (r : Nat) : List (Name × Obj) :=
+def getDict (s : VM) (r : Nat) : List (Name × Obj) :=
   match s.heap[r]? with
   | some (.dict d) => d
   | _ => []
 
-def getObjs (s : State) (r : Nat) : Array Obj :=
+def getObjs (s : VM) (r : Nat) : Array Obj :=
   match s.heap[r]? with
   | some (.objs a) => a
   | _ => #[]
 
-def getBytes (s : State) (r : Nat) : Array UInt8 :=
+def getBytes (s : VM) (r : Nat) : Array UInt8 :=
   match s.heap[r]? with
   | some (.bytes a) => a
   | _ => #[]
 
-def getCMap (s : State) (r : Nat) : CMapInfo :=
+def getCMap (s : VM) (r : Nat) : CMapInfo :=
   match s.heap[r]? with
   | some (.cmap c) => c
   | _ => {}
 
-def setCell (s : State) (r : Nat) (c : Cell) : State :=
+def setCell (s : VM) (r : Nat) (c : Cell) : VM :=
   { s with heap := s.heap.setIfInBounds r c }
 
-end State
+end VM
 
 def dictLookup (d : List (Name × Obj)) (k : Name) : Option Obj :=
   match d.find? (fun p => p.1 == k) with
@@ -182,23 +188,23 @@ def dictInsert (d : List (Name × Obj)) (k : Name) (v : Obj) : List (Name × Obj
   if d.any (fun p => p.1 == k) then d.map (fun p => if p.1 == k then (k, v) else p)
   else d ++ [(k, v)]
 
-namespace State
+namespace VM
 
-def dictGet (s : State) (r : Nat) (k : Name) : Option Obj := dictLookup (s.getDict r) k
+def dictGet (s : VM) (r : Nat) (k : Name) : Option Obj := dictLookup (s.getDict r) k
 
-def dictPut (s : State) (r : Nat) (k : Name) (v : Obj) : State :=
+def dictPut (s : VM) (r : Nat) (k : Name) (v : Obj) : VM :=
   s.setCell r (.dict (dictInsert (s.getDict r) k v))
 
 /-- elements of an array/procedure view -/
-def viewObjs (s : State) (ref off len : Nat) : List Obj :=
+def viewObjs (s : VM) (ref off len : Nat) : List Obj :=
   ((s.getObjs ref).extract off (off + len)).toList
 
-def viewBytes (s : State) (ref off len : Nat) : List UInt8 :=
+def viewBytes (s : VM) (ref off len : Nat) : List UInt8 :=
   ((s.getBytes ref).extract off (off + len)).toList
 
-def push (s : State) (o : Obj) : State := { s with stack := o :: s.stack }
+def push (s : VM) (o : Obj) : VM := { s with stack := o :: s.stack }
 
-end State
+end VM
 
 /-- write `vals` into an array at `off` (Go `copy(dst[off:], src)`) -/
 def writeAt {α : Type} (a : Array α) (off : Nat) (vals : List α) : Array α :=
